@@ -9,17 +9,18 @@ import Sqljson.Props.C13c
 
 and then counts the characters `1`…`9` before the decimal point of the shortest decimal text of the result.
 
+If `rounded` is ±Inf the method fails with the suppressible error (Go fix ac546c4); otherwise the digit check decides.
+
 Everything about `decimalRound` is proved here for an **arbitrary ratio `r`** that satisfies a list of decidable facts
 (`RatioFacts scale r`: finite, positive, well formed, `≥ 1` for a non-negative scale, `≤ 1` for a non-positive one,
 within relative distance `2^-51` of `10^scale` for `scale ≥ -307`, exactly `10^scale` for `0 ≤ scale ≤ 22`, below `2^-1026`
-for `scale ≤ -309`).  The facts are then checked, by kernel evaluation of all 632 scales, for two ratios:
+for `scale ≤ -309`).  The facts are then checked, by kernel evaluation of all 632 scales −323…308, for `F64.pow10`, which
+mirrors Go's `math.Pow10` as written (go1.23.5 `math/pow10.go`): the rounded product `pow10postab32[n/32] * pow10tab[n%32]`
+resp. the rounded quotient `pow10negtab32[-n/32] / pow10tab[-n%32]` of two correctly rounded table entries.
 
-* `F64.pow10`   the model's `math.Pow10` — the correctly rounded power of ten;
-* `goPow10`     what Go's `math.Pow10` really computes (go1.23.5 `math/pow10.go`): the rounded product
-                `pow10postab32[n/32] * pow10tab[n%32]` resp. the rounded quotient `pow10negtab32[-n/32] / pow10tab[-n%32]`
-                of two correctly rounded table entries.  **The two differ in 169 of the 632 scales** (`C16d.Findings.pow10_differs`),
-                first at `n = 33` and `n = -23` — a defect of the model found by this proof; all theorems therefore hold for
-                both.
+`nearestPow10 n` is the double nearest to `10^n`; `math.Pow10` is NOT that double at 169 of the 632 scales
+(`C16d.Findings.pow10_not_nearest`; the nearest to zero are 33 and −23) — an observation about Go's arithmetic, which is why
+the ratio is only known to be within `2^-51` of the power.
 -/
 
 namespace Sqljson.DecimalMethod
@@ -41,15 +42,12 @@ def scaleArg : Option Node → Option Int
   | none => some 0
   | r => intArg r
 
-/-- table entries of `math/pow10.go`: the literals `1e<k>` and `1e-<k>`, which the Go compiler rounds correctly -/
-def lit (k : Nat) : F64 := F64.roundPos false (10 ^ k) 1
-def litNeg (k : Nat) : F64 := F64.roundPos false 1 (10 ^ k)
-
-/-- Go's `math.Pow10` as it is written (go1.23.5): a rounded product / quotient of two table entries -/
-def goPow10 (n : Int) : F64 :=
-  if 0 ≤ n ∧ n ≤ 308 then F64.mul (lit (32 * (n.toNat / 32))) (lit (n.toNat % 32))
-  else if -323 ≤ n ∧ n ≤ 0 then F64.div (litNeg (32 * ((-n).toNat / 32))) (lit ((-n).toNat % 32))
-  else if n > 0 then .inf false else .fin false 0 F64.minExp
+/-- the double nearest to `10^n` (ties to even) — what a correctly rounded `Pow10` would return -/
+def nearestPow10 (n : Int) : F64 :=
+  if n < -323 then .fin false 0 F64.minExp
+  else if n > 308 then .inf false
+  else if n ≥ 0 then F64.roundPos false (10 ^ n.toNat) 1
+  else F64.roundPos false 1 (10 ^ (-n).toNat)
 
 /-- the overflow threshold `MaxFloat64 + ulp/2` -/
 def thr : Nat := 2 ^ 1024 - 2 ^ 970
@@ -98,27 +96,12 @@ set_option exponentiation.threshold 2000 in
 theorem pow10_table : ∀ i : Nat, i < 632 → ratioChk ((i : Int) - 323) (F64.pow10 ((i : Int) - 323)) := by
   decide +kernel
 
-set_option exponentiation.threshold 2000 in
-theorem goPow10_table : ∀ i : Nat, i < 632 → ratioChk ((i : Int) - 323) (goPow10 ((i : Int) - 323)) := by
-  decide +kernel
-
-/-- **the model's `math.Pow10`** satisfies the facts for every scale at which it is finite and non-zero -/
+/-- **`math.Pow10`** satisfies the facts for every scale at which it is finite and non-zero -/
 theorem pow10_facts (s : Int) (h1 : -323 ≤ s) (h2 : s ≤ 308) : RatioFacts s (F64.pow10 s) := by
   have := pow10_table (s + 323).toNat (by omega)
   have e : (((s + 323).toNat : Nat) : Int) - 323 = s := by omega
   rw [e] at this
   exact ratioFacts_of_chk this
-
-/-- **Go's `math.Pow10`** satisfies the same facts -/
-theorem goPow10_facts (s : Int) (h1 : -323 ≤ s) (h2 : s ≤ 308) : RatioFacts s (goPow10 s) := by
-  have := goPow10_table (s + 323).toNat (by omega)
-  have e : (((s + 323).toNat : Nat) : Int) - 323 = s := by omega
-  rw [e] at this
-  exact ratioFacts_of_chk this
-
-/-- the scales at which the model's correctly rounded `pow10` is not what Go's `math.Pow10` returns -/
-def differingScales : List Int :=
-  ((List.range 632).map (fun (i : Nat) => (i : Int) - 323)).filter (fun s => decide (F64.pow10 s ≠ goPow10 s))
 
 /-! ## 1. finite doubles -/
 
@@ -894,11 +877,13 @@ theorem getNodeInt32_ok {n : Node} {i : Int} (h : getNodeInt32 n = .ok i) : ∃ 
   · cases h
   · cases h; exact ⟨nx, rfl⟩
 
-/-- **with valid arguments** the method is: compute `decimalRound num (Pow10 scale)`, then the digit check -/
+/-- **with valid arguments** the method is: compute `decimalRound num (Pow10 scale)`; an infinite value is the
+    suppressible error; otherwise the digit check -/
 theorem exec_eq (p s : Int) (l r : Option Node) (num : F64) (hl : intArg l = some p) (hr : scaleArg r = some s)
     (hp1 : 1 ≤ p) (hp2 : p ≤ 1000) (hs1 : -1000 ≤ s) (hs2 : s ≤ 1000) :
     executeDecimalMethod l r num =
-      if rejected p s (decimalRound num (F64.pow10 s)) then .error .verbose
+      if (decimalRound num (F64.pow10 s)).isInf then .error .verbose
+      else if rejected p s (decimalRound num (F64.pow10 s)) then .error .verbose
       else .ok (decimalRound num (F64.pow10 s)) := by
   have hmin : Num.minInt32 = -2147483648 := rfl
   have hmax : Num.maxInt32 = 2147483647 := rfl
@@ -928,11 +913,12 @@ theorem exec_eq (p s : Int) (l r : Option Node) (num : F64) (hl : intArg l = som
     rfl
 
 /-- **every successful call**: either there are no arguments and the value is returned as it is, or the arguments are
-    integer literals in range, the result is `decimalRound num (Pow10 scale)`, and it passed the digit check -/
+    integer literals in range, the result is `decimalRound num (Pow10 scale)`, it is not infinite, and it passed the digit
+    check -/
 theorem exec_ok_cases {l r : Option Node} {num x : F64} (h : executeDecimalMethod l r num = .ok x) :
     (l = none ∧ x = num) ∨
     ∃ p s, intArg l = some p ∧ scaleArg r = some s ∧ 1 ≤ p ∧ p ≤ 1000 ∧ -1000 ≤ s ∧ s ≤ 1000 ∧
-      x = decimalRound num (F64.pow10 s) ∧ rejected p s x = false := by
+      x = decimalRound num (F64.pow10 s) ∧ x.isInf = false ∧ rejected p s x = false := by
   cases l with
   | none => left; simp only [executeDecimalMethod] at h; cases h; exact ⟨rfl, rfl⟩
   | some ln =>
@@ -962,14 +948,44 @@ theorem exec_ok_cases {l r : Option Node} {num x : F64} (h : executeDecimalMetho
         have he := exec_eq p s (some (.integer p n1)) r num rfl hs hp.1 hp.2 hs1 hs2
         rw [he] at h
         refine ⟨p, s, rfl, hs, hp.1, hp.2, hs1, hs2, ?_⟩
-        cases hrj : rejected p s (decimalRound num (F64.pow10 s))
-        · rw [hrj] at h
+        cases hinf : (decimalRound num (F64.pow10 s)).isInf
+        · rw [hinf] at h
           simp only [Bool.false_eq_true, if_false] at h
-          cases h
-          exact ⟨rfl, hrj⟩
-        · rw [hrj] at h
+          cases hrj : rejected p s (decimalRound num (F64.pow10 s))
+          · rw [hrj] at h
+            simp only [Bool.false_eq_true, if_false] at h
+            cases h
+            exact ⟨rfl, hinf, hrj⟩
+          · rw [hrj] at h
+            simp only [if_true] at h
+            cases h
+        · rw [hinf] at h
           simp only [if_true] at h
           cases h
+
+/-- a call with valid arguments whose rounded value is `x`, not infinite and passing the digit check, returns `x` -/
+theorem exec_ok_of (p s : Int) (l r : Option Node) (num x : F64) (hl : intArg l = some p) (hr : scaleArg r = some s)
+    (hp1 : 1 ≤ p) (hp2 : p ≤ 1000) (hs1 : -1000 ≤ s) (hs2 : s ≤ 1000)
+    (hx : decimalRound num (F64.pow10 s) = x) (hinf : x.isInf = false) (hrej : rejected p s x = false) :
+    executeDecimalMethod l r num = .ok x := by
+  rw [exec_eq p s l r num hl hr hp1 hp2 hs1 hs2, hx, hinf, hrej]
+  rfl
+
+/-- … whose rounded value is infinite: the suppressible error -/
+theorem exec_err_of_inf (p s : Int) (l r : Option Node) (num : F64) (hl : intArg l = some p) (hr : scaleArg r = some s)
+    (hp1 : 1 ≤ p) (hp2 : p ≤ 1000) (hs1 : -1000 ≤ s) (hs2 : s ≤ 1000)
+    (hinf : (decimalRound num (F64.pow10 s)).isInf = true) :
+    executeDecimalMethod l r num = .error .verbose := by
+  rw [exec_eq p s l r num hl hr hp1 hp2 hs1 hs2, hinf]
+  rfl
+
+/-- … whose rounded value fails the digit check: the suppressible error -/
+theorem exec_err_of_rejected (p s : Int) (l r : Option Node) (num : F64) (hl : intArg l = some p)
+    (hr : scaleArg r = some s) (hp1 : 1 ≤ p) (hp2 : p ≤ 1000) (hs1 : -1000 ≤ s) (hs2 : s ≤ 1000)
+    (hrej : rejected p s (decimalRound num (F64.pow10 s)) = true) :
+    executeDecimalMethod l r num = .error .verbose := by
+  rw [exec_eq p s l r num hl hr hp1 hp2 hs1 hs2, hrej]
+  cases (decimalRound num (F64.pow10 s)).isInf <;> rfl
 
 section
 open FloatText JNum
